@@ -16,6 +16,9 @@ void* __real_realloc(void*, size_t);
 void __real_free(void*);
 
 static int aw_on = 0;
+/* outside the tracked scenarios (C17): let the next k allocator calls of the library fail (used around a single
+   library call by the route comparison of C06) */
+static int aw_fail_plain = 0;
 static long aw_fail_in = -1; /* allocations still to succeed before the failing one; -1: none */
 static unsigned aw_next = 0;
 
@@ -83,6 +86,7 @@ void aw_reset(long fail_at /* 0: none, k >= 1: the k-th allocation fails */)
     aw_fail_in = fail_at > 0 ? fail_at - 1 : -1;
 }
 void aw_track(int on) { aw_on = on; }
+void aw_fail_next_plain(int k) { aw_fail_plain = k; }
 const char* aw_events(void) { return aw_log && aw_len ? aw_log : "-"; }
 int aw_bad_events(void) { return aw_bad; }
 size_t aw_live(void)
@@ -179,6 +183,10 @@ void aw_delete(void* p)
 void* __wrap_malloc(size_t n)
 {
     if (!aw_on) {
+        if (aw_fail_plain > 0) {
+            aw_fail_plain--;
+            return 0;
+        }
         return __real_malloc(n);
     }
     return aw_do_alloc(n, 0);
@@ -187,6 +195,10 @@ void* __wrap_malloc(size_t n)
 void* __wrap_calloc(size_t a, size_t b)
 {
     if (!aw_on) {
+        if (aw_fail_plain > 0) {
+            aw_fail_plain--;
+            return 0;
+        }
         return __real_calloc(a, b);
     }
     return aw_do_alloc(a * b, 1);
@@ -196,6 +208,10 @@ void* __wrap_realloc(void* p, size_t n)
 {
     char b[80];
     if (!aw_on) {
+        if (aw_fail_plain > 0) {
+            aw_fail_plain--;
+            return 0;
+        }
         return __real_realloc(p, n);
     }
     struct ent* e = p ? aw_find_live(p) : 0;
